@@ -11,7 +11,9 @@ R6.5 one seedable random stream: the only nondeterminism sources reachable from 
      global-stream functions; no other RNG, clock, or hash-ordered iteration
 R6.6 the proposals are translation / rotation about the centroid / bond-restoring move (C09/R9.3, C07)
 R6.7 default deformation types stay within {0,1,2} and exclude single-atom moves for one-atom molecules
-R6.8 the acceptance rule keeps its positive form, so a proposal with a NaN energy is rejected (finite coordinates)
+R6.8 the acceptance rule keeps its positive form, so a proposal with a NaN energy is rejected (finite coordinates); and on no
+     path through the loop body is the held configuration rebound when every comparison on the proposal's energy is evaluated as
+     for NaN (covers an acceptance test written out in the loop)
 R6.9 the alignment entry points keep no table between calls (module/class containers, memo decorators) unless keyed by all inputs
 """
 from __future__ import annotations
